@@ -249,9 +249,14 @@ pub proof fn lemma_bytes_shr(w: nat, a: nat, s: nat)
     assert(8 * n == w && 8 * k == s);
     let l = nat_le_bytes(a / pow2(s), n);
     let r = shr_bytes(nat_le_bytes(a, n), k);
+    assert(l.len() == n);
+    assert(r.len() == n);
     assert forall|i: int| 0 <= i < n implies l[i] == r[i] by {
         lemma_nat_byte_shr(a, k, i as nat);
-        if i + k >= n { lemma_nat_byte_high(a, n, (i + k) as nat); }
+        assert(l[i] == nat_byte(a / pow2(s), i as nat));
+        assert(nat_byte(a / pow2(s), i as nat) == nat_byte(a, i as nat + k));
+        if i + k >= n { lemma_nat_byte_high(a, n, (i + k) as nat); assert(r[i] == 0); assert(nat_byte(a, (i + k) as nat) == 0); }
+        else { assert(r[i] == nat_le_bytes(a, n)[i + k]); assert(r[i] == nat_byte(a, (i + k) as nat)); }
     }
     assert(l =~= r);
 }
